@@ -1114,6 +1114,13 @@ class Interp:
         return False
 
     def contains(self, container, item):
+        if isinstance(container, (list, tuple)) and isinstance(item, SInt) and container \
+                and all(isinstance(x, int) for x in container) and not ctx().spec:
+            # python compares element by element; forking per element leaves `item == k` on the path
+            for x in container:
+                if self.truth(item == x):
+                    return True
+            return False
         if isinstance(container, (list, tuple)):
             parts = []
             for x in container:
@@ -1716,6 +1723,9 @@ def m_len(interp, v):
 @model(range)
 def m_range(interp, *a):
     if contains_sym(a):
+        conc = [ctx().concretize(x) if isinstance(x, SInt) else x for x in a]
+        if all(isinstance(x, int) for x in conc):
+            return range(*conc)
         if len(a) == 1:
             return SRange(0, a[0], 1)
         if len(a) == 2:
